@@ -126,8 +126,11 @@ def run(tier: str, seed: int) -> int:
         st = _driver(['scen', sf, out], tier, seed)
         if st.get('scenarios') != len(scens):
             raise core.MachineryError(f'scenario handshake failed: {st} vs {len(scens)}')
-        n_step = sum(len(s['insts']) for s in scens)
-        n_final = sum(len(s['insts']) for s in scens if len(s['insts']) > 1)
+        n_step = sum(len(s['insts']) if s['t'] != 'io' else 1 for s in scens)
+        n_final = sum(len(s['insts']) for s in scens if s['t'] != 'io' and len(s['insts']) > 1)
+        cov['io_scenarios'] = sum(1 for s in scens if s['t'] == 'io')
+        if not cov['io_scenarios']:
+            raise core.MachineryError('no instance I/O scenarios')
         if st['records'] != n_step + n_final:
             raise core.MachineryError(f'scenario handshake failed: {st["records"]} records for {n_step}+{n_final} collapses')
         cov['scenarios'] = len(scens)
@@ -159,7 +162,7 @@ def run(tier: str, seed: int) -> int:
         total = st['records']
         cov['states'] += st['states']
         cov['transitions'] += st['transitions']
-        for k in ('collapse', 'step', 'run', 'subst', 'name'):
+        for k in ('collapse', 'step', 'run', 'subst', 'name', 'io'):
             if not kinds.get(k):
                 raise core.MachineryError(f'no records of kind {k}')
         cov['traces_validated_against_impl'] = total
